@@ -106,10 +106,15 @@ func Prepare(c Case) Prepared {
 	}
 	p.InDom = true
 	al := make([]int, n+1)
+	for i := range al {
+		al[i] = m.AlignCode[i] // what property steps in between the build steps left behind
+	}
 	for i := 0; i <= n && i < len(c.Align); i++ {
-		al[i] = c.Align[i]
-		if v := AlignValue(c.Align[i]); v != nil && !c.AlignByCallback {
-			t.Column(i).SetProperty(align.PropertyType, v)
+		if v := AlignValue(c.Align[i]); v != nil {
+			al[i] = c.Align[i]
+			if !c.AlignByCallback {
+				t.Column(i).SetProperty(align.PropertyType, v)
+			}
 		}
 	}
 	if !c.AlignByCallback {
